@@ -175,17 +175,20 @@ type indexSpec struct {
 	lower  bool
 	fields []string // multieq: one argument per field, compared after lower-casing when lowers[i]
 	lowers []bool
+	// multieq queried with a single struct argument (state.Query, state.NodeServiceQuery, ...): the struct's
+	// fields that correspond to `fields`, in the same order
+	argFields []string
 }
 
 type tableSpec struct {
-	name     string
-	rowPkg   string
-	rowType  string
-	keyField string
-	keyFields []string // composite key (field paths); keyLower[i]: component i is lower-cased
-	keyLower  []bool
-	lower    bool // key is lower-cased
-	single   bool // singleton table (key is a constant)
+	name          string
+	rowPkg        string
+	rowType       string
+	keyField      string
+	keyFields     []string // composite key (field paths); keyLower[i]: component i is lower-cased
+	keyLower      []bool
+	lower         bool // key is lower-cased
+	single        bool // singleton table (key is a constant)
 	emptyKeyFails bool // the id indexer rejects an empty key (reads and writes fail)
 	// an alternative argument type from which the key can be computed (e.g. *pbresource.ID for the resources table)
 	altPkg, altType string
@@ -196,7 +199,7 @@ type tableSpec struct {
 	ifacePkg     string
 	ifaceType    string
 	ifaceKeyMeth []string
-	indexes  map[string]indexSpec
+	indexes      map[string]indexSpec
 }
 
 var tables = map[string]*tableSpec{}
@@ -228,11 +231,17 @@ func init() {
 		altPkg:    consulMod + "/proto-public/pbresource", altType: "ID",
 		altFields: []string{"Type.Group", "Type.Kind", "Tenancy.Partition", "Tenancy.Namespace", "Name"}})
 	addTable(&tableSpec{name: "checks", rowPkg: structsPkg, rowType: "HealthCheck", keyFields: []string{"PeerName", "Node", "CheckID"}, keyLower: []bool{true, true, true},
-		altPkg: statePkg, altType: "NodeCheckQuery", altFields: []string{"PeerName", "Node", "CheckID"}})
+		altPkg: statePkg, altType: "NodeCheckQuery", altFields: []string{"PeerName", "Node", "CheckID"},
+		indexes: map[string]indexSpec{
+			"node":         {kind: "multieq", fields: []string{"PeerName", "Node"}, lowers: []bool{true, true}, argFields: []string{"PeerName", "Value"}},
+			"node_service": {kind: "multieq", fields: []string{"PeerName", "Node", "ServiceID"}, lowers: []bool{true, true, true}, argFields: []string{"PeerName", "Node", "Service"}}}})
 	addTable(&tableSpec{name: "nodes", rowPkg: structsPkg, rowType: "Node", keyFields: []string{"PeerName", "Node"}, keyLower: []bool{true, true},
 		altPkg: statePkg, altType: "Query", altFields: []string{"PeerName", "Value"}})
 	addTable(&tableSpec{name: "services", rowPkg: structsPkg, rowType: "ServiceNode", keyFields: []string{"PeerName", "Node", "ServiceID"}, keyLower: []bool{true, true, true},
-		altPkg: statePkg, altType: "NodeServiceQuery", altFields: []string{"PeerName", "Node", "Service"}})
+		altPkg: statePkg, altType: "NodeServiceQuery", altFields: []string{"PeerName", "Node", "Service"},
+		indexes: map[string]indexSpec{
+			"node":    {kind: "multieq", fields: []string{"PeerName", "Node"}, lowers: []bool{true, true}, argFields: []string{"PeerName", "Value"}},
+			"service": {kind: "multieq", fields: []string{"PeerName", "ServiceName"}, lowers: []bool{true, true}, argFields: []string{"PeerName", "Value"}}}})
 	addTable(&tableSpec{name: "config-entries", ifaceRow: true, ifacePkg: structsPkg, ifaceType: "ConfigEntry", ifaceKeyMeth: []string{"GetKind", "GetName"},
 		keyLower: []bool{true, true}, altPkg: consulMod + "/agent/configentry", altType: "KindName", altFields: []string{"Kind", "Name"}})
 	addTable(&tableSpec{name: "connect-intentions", rowPkg: structsPkg, rowType: "Intention", keyField: "ID", lower: true,
@@ -544,6 +553,23 @@ func (f *Frame) argKey(st *State, t *tableSpec, v *Term, at types.Type, n ast.No
 func (f *Frame) multiArgs(st *State, e *ast.CallExpr, packed *Term, ix indexSpec) []*Term {
 	c := f.c
 	var want []*Term
+	if v, at, ok := f.varArg(st, e, packed, 2, 0); ok && len(ix.argFields) > 0 {
+		if _, isStruct := types.Unalias(at).Underlying().(*types.Struct); isStruct {
+			si := c.structInfo(at)
+			for i, af := range ix.argFields {
+				idx, has := si.byName[af]
+				if !has {
+					f.fail(e, "index argument of type %s has no field %s", at, af)
+				}
+				x := c.fieldGet(v, si, idx)
+				if i < len(ix.lowers) && ix.lowers[i] {
+					x = c.strLower(x)
+				}
+				want = append(want, x)
+			}
+			return want
+		}
+	}
 	if v, at, ok := f.varArg(st, e, packed, 2, 0); ok {
 		if n, isNamed := types.Unalias(at).(*types.Named); isNamed && n.Obj().Name() == "MultiQuery" {
 			si := c.structInfo(at)
@@ -719,18 +745,7 @@ func (f *Frame) memdbLookup(st *State, e *ast.CallExpr, args []*Term) (*Term, *T
 		return r, failed
 	}
 	if ix.kind == "multieq" {
-		var want []*Term
-		for i := range ix.fields {
-			v, at, ok := f.varArg(st, e, packed, 2, i)
-			if !ok {
-				f.fail(e, "First on compound index needs %d arguments", len(ix.fields))
-			}
-			v = f.argString(st, v, at, e)
-			if i < len(ix.lowers) && ix.lowers[i] {
-				v = c.strLower(v)
-			}
-			want = append(want, v)
-		}
+		want := f.multiArgs(st, e, packed, ix)
 		match := func(w *State, row *Term) *Term {
 			var cs []*Term
 			for i, fld := range ix.fields {
